@@ -576,6 +576,21 @@ def read_declaration(toks, sym=None):
     return d
 
 
+def expr_struct(e):
+    """Text that shows the TREE (every binary node in brackets), so that two readings of the same tokens with
+    different associativity or precedence differ."""
+    k = e[0]
+    if k == "bin":
+        return "[" + expr_struct(e[2]) + e[1] + expr_struct(e[3]) + "]"
+    if k == "unary":
+        return e[1] + expr_struct(e[2])
+    if k == "paren":
+        return "(" + expr_struct(e[1]) + ")"
+    if k == "call":
+        return e[1] + "(" + ",".join(expr_struct(a) for a in e[2]) + ")"
+    return str(e[1])
+
+
 def expr_text(e):
     """Canonical text of an expression tree (same shape todict.print_node produces)."""
     k = e[0]
